@@ -512,7 +512,7 @@ func runReload(rs ReloadScript) (nontrivial bool, key string, f *vt.Finding) {
 		if !reflect.DeepEqual(got, fresh[i]) {
 			st, mi, ch := effDiff(got, fresh[i])
 			sig := "reload-effective/differs-from-fresh-start"
-			if len(st) > 0 && len(mi) == 0 {
+			if len(st) > 0 {
 				sig = "reload-effective/stale-keys-after-reload"
 			}
 			return true, key, vt.Failf(sig, "after reload #%d the ConfigWatcher extension is handed an effective configuration that differs from the one of a fresh Collector on the same document: keys that should be gone %q, missing %q, different %q", i, head(st), head(mi), head(ch))
